@@ -22,7 +22,7 @@ pub fn dispatch_answer(req: &str) -> String {
         "COMPILE" => compilelayer::answer_compile(req),
         "SES" => seslayer::answer_ses(req),
         "FIND" => findlayer::answer_find(req),
-        "LEX" | "C05" | "C05D" | "C16" => lexlayer::answer(req),
+        "LEX" | "C05" | "C05D" | "C16" | "RENUMLINE" => lexlayer::answer(req),
         "VAR" | "VARSPEC" => varlayer::answer(req),
         "LST" | "LSTSPEC" => lstlayer::answer(req),
         _ => ops::answer(req),
@@ -77,6 +77,7 @@ fn main() {
         "lex-rand" => lexlayer::gen_rand(&mut w, &tier, seed),
         "lex-c05" => lexlayer::gen_c05(&mut w, &tier, seed),
         "lex-c16" => lexlayer::gen_c16(&mut w, &tier, seed),
+        "lex-renum" => lexlayer::gen_renum(&mut w, &tier, seed),
         "replay" => ops::replay(&mut w),
         other => {
             eprintln!("unknown layer {}", other);
